@@ -32,6 +32,9 @@ func cmdSweep(args []string) int {
 	if kind == "rename-members" {
 		return cmdSweepRename("members")
 	}
+	if _, ok := astSweeps[kind]; ok {
+		return cmdSweepAST(kind)
+	}
 	repo := envOr("NPVERIF_REPO", "/repo")
 	overlay := map[string][]byte{}
 	_ = filepath.Walk(filepath.Join(repo, "pkg"), func(path string, fi os.FileInfo, err error) error {
@@ -128,6 +131,11 @@ func cmdSweep(args []string) int {
 		overlay[path] = out
 		return nil
 	})
+	return runSweepOverlay(kind, repo, overlay)
+}
+
+// runSweepOverlay loads the tree with the edited files and runs every property: any report is a false alarm.
+func runSweepOverlay(kind, repo string, overlay map[string][]byte) int {
 	prog, err := core.Load(repo, overlay)
 	if err != nil {
 		fmt.Println("sweep: load:", err)
@@ -135,6 +143,7 @@ func cmdSweep(args []string) int {
 	}
 	ff, _ := core.LoadFindings(filepath.Join(envOr("NPVERIF_DIR", "/verif"), "known_findings.json"))
 	bad := 0
+	fmt.Printf("sweep %s: %d returns canonicalised at load\n", kind, prog.Canonicalised)
 	for _, pr := range props.All() {
 		if only := os.Getenv("NPVERIF_SWEEP_PROP"); only != "" && pr.ID != only {
 			continue
